@@ -113,20 +113,42 @@ def jaqal_import(
 
     top_level = mod_name.split(".")[0]
 
+    # Modules of that name which somebody else imported (the standard library,
+    # an installed package, even jaqalpaq itself).  A relative import takes
+    # precedence over them, but only for its own duration: they are set aside
+    # and put back afterwards, so that the outcome of this import does not
+    # depend on what happens to be imported already, and nobody else sees a
+    # difference.
+    foreign = None
+
     if relative:
         if top_level in sys.modules and top_level not in _relative_modules:
-            # Reloading would unload a module somebody else imported (even
-            # jaqalpaq itself), and later calls would see the damage.
-            raise ImportError(
-                f"Cannot import {mod_name} relatively: the name belongs to a module that is already imported"
-            )
-        if reload_module:
+            foreign = {
+                k: sys.modules.pop(k)
+                for k in [
+                    k
+                    for k in sys.modules.keys()
+                    if k == top_level or k.startswith(f"{top_level}.")
+                ]
+            }
+        elif reload_module:
             # Start from the same state whatever was imported relatively before
             _forget_relative_module(top_level)
     elif top_level in _relative_modules:
         # A leftover of an earlier relative import is not an installed module
         _forget_relative_module(top_level)
 
+    try:
+        return _jaqal_import(
+            mod_name, obj_name, import_path, relative, reload_module, full_reload
+        )
+    finally:
+        if foreign is not None:
+            _forget_relative_module(top_level)
+            sys.modules.update(foreign)
+
+
+def _jaqal_import(mod_name, obj_name, import_path, relative, reload_module, full_reload):
     module = sys.modules.get(mod_name)
 
     if module and reload_module:
